@@ -1499,18 +1499,29 @@ def _sec_named(ctx, fixed, corpus):
                 right[-1] = left[0]  # `x, ..., *r, ..., x`
             if rng.random() < 0.3 and l >= 2:
                 left[1] = left[0]    # duplicates on the same side too
+            # the STARRED name may be repeated too (`*mid, ..., mid`, `mid, *mid`): bound in pattern order (/repo 535d821)
+            if rng.random() < 0.4:
+                right[rng.randrange(r)] = 100
+            if rng.random() < 0.25:
+                left[rng.randrange(l)] = 100
             names = left + [100] + right
             def nm(x):
                 return "mid" if x == 100 else f"v{x}"
             pat = ", ".join([nm(x) for x in left] + ["*mid"] + [nm(x) for x in right])
             distinct = list(dict.fromkeys(names))
-            rty = ", ".join(f"array[int, {nlen - l - r}]" if x == 100 else "int" for x in distinct)
-            src = (f"@guppy\ndef up(xs: array[int, {nlen}] @owned) -> tuple[{rty}]:\n    {pat} = xs\n"
+            penv = {}
+            exec(f"{pat} = xs", {"xs": [10 + k for k in range(nlen)]}, penv)  # noqa: S102  which occurrence of a name wins
+            rty = ", ".join(f"array[int, {len(penv[nm(x)])}]" if isinstance(penv[nm(x)], list) else "int" for x in distinct)
+            rt = rty if len(distinct) == 1 else f"tuple[{rty}]"
+            src = (f"@guppy\ndef up(xs: array[int, {nlen}] @owned) -> {rt}:\n    {pat} = xs\n"
                    f"    return {', '.join(nm(x) for x in distinct)}\n")
             m = _lower(src)
             try:
                 h = feed.lower(m.up).hugr
                 prog, _sig = _block_prog(h, "up")
+                # a starred array that is re-bound by a later target of the same name is unused and gets dropped at the end of
+                # the block (`tket.guppy.drop`, no outputs): not part of the unpacking
+                prog = (prog[0], [i_ for i_ in prog[1] if i_[0] != "drop"], prog[2])
                 prog = _strip_return_tuple(prog)
                 err = None
             except Exception as e:  # noqa: BLE001
@@ -1532,7 +1543,7 @@ def _sec_named(ctx, fixed, corpus):
         exec(f"{pat} = xs", {"xs": list(xs)}, env)  # noqa: S102  Python's own left-to-right binding
         def nm(x):
             return "mid" if x == 100 else f"v{x}"
-        want = ("ok", [("arr", tuple(env["mid"])) if x == 100 else ("elem", env[nm(x)]) for x in distinct])
+        want = ("ok", [("arr", tuple(env[nm(x)])) if isinstance(env[nm(x)], list) else ("elem", env[nm(x)]) for x in distinct])
         got = py_run(prog, [("arr", tuple(xs))])
         if unknown_op(got):
             ctx.broke(f"named unpack probe: operation without modelled semantics: {got[1]}")
